@@ -11,6 +11,11 @@ HOOKS = {
     "SOO": lambda: monitors.sweep_hooks("SOO"),
     "DOO": lambda: monitors.sweep_hooks("DOO"),
     "StoSOO": lambda: monitors.sweep_hooks("StoSOO"),
+    "SequOOL": lambda: monitors.sequool_hooks(),
+    "POO": lambda: monitors.poo_hooks(),
+    "GPO": lambda: monitors.gpo_hooks("GPO"),
+    "PCT": lambda: monitors.gpo_hooks("PCT"),
+    "VPCT": lambda: monitors.gpo_hooks("VPCT"),
 }
 
 
